@@ -67,16 +67,18 @@ type c12Server struct {
 	q        map[string]c12Query // first 16 bytes of the request -> query id, connection
 	autoPong bool
 	pings    atomic.Int64
+	pongAt   []time.Time // when a pong was written (under mu)
 }
 
 type c12Ln struct {
-	srv *c12Server
-	k   int
-	ln  net.Listener
-	mu  sync.Mutex
-	cur *c12Conn
-	gen int // number of completed handshakes on this listener
-	all []*c12Conn
+	srv  *c12Server
+	k    int
+	ln   net.Listener
+	mu   sync.Mutex
+	cur  *c12Conn
+	gen  int // number of completed handshakes on this listener
+	upAt []time.Time
+	all  []*c12Conn
 }
 
 type c12Conn struct {
@@ -176,6 +178,7 @@ func (l *c12Ln) serve(c net.Conn) {
 	l.mu.Lock()
 	l.cur = fc
 	l.gen++
+	l.upAt = append(l.upAt, time.Now())
 	l.mu.Unlock()
 	rd := bufio.NewReader(c)
 	for {
@@ -203,7 +206,11 @@ func (l *c12Ln) serve(c net.Conn) {
 				pong := make([]byte, 12)
 				binary.LittleEndian.PutUint32(pong, c12MagicPong)
 				copy(pong[4:], p.Payload[4:])
-				fc.send(pong)
+				if fc.send(pong) == nil {
+					s.mu.Lock()
+					s.pongAt = append(s.pongAt, time.Now())
+					s.mu.Unlock()
+				}
 			}
 		}
 	}
@@ -609,6 +616,9 @@ func runC12Script(in sx.V, D time.Duration) (r c12ScriptRes) {
 					return ok || c.returned()
 				})
 				if _, got := e.srv.query(c.key); !ok || !got {
+					if c.returned() {
+						r.slow = true // the deadline passed before the server goroutine ran
+					}
 					return bad(fmt.Sprintf("query of call %d not received", i))
 				}
 			}
@@ -729,7 +739,7 @@ func runC12Script(in sx.V, D time.Duration) (r c12ScriptRes) {
 // the machine was too slow for the answers to be sure to precede the deadline
 func c12ScriptRobust(in sx.V, D time.Duration) c12ScriptRes {
 	var r c12ScriptRes
-	for try := 0; try < 4; try++ {
+	for try := 0; try < 6; try++ {
 		r = runC12Script(in, D)
 		if !r.slow {
 			return r
